@@ -6,5 +6,7 @@ tbl = subprocess.run(["python3", os.path.join(ROOT, "tools", "mkseedtable.py")],
 p = os.path.join(ROOT, "DESIGN.md")
 s = open(p).read()
 s = re.sub(r"<!-- SEEDTABLE-BEGIN -->.*?<!-- SEEDTABLE-END -->", "<!-- SEEDTABLE-BEGIN -->\n" + tbl + "<!-- SEEDTABLE-END -->", s, flags=re.S)
+tbl2 = subprocess.run(["python3", os.path.join(ROOT, "tools", "mkthmtable.py")], stdout=subprocess.PIPE, text=True).stdout
+s = re.sub(r"<!-- THMTABLE-BEGIN -->.*?<!-- THMTABLE-END -->", lambda m: "<!-- THMTABLE-BEGIN -->\n" + tbl2 + "<!-- THMTABLE-END -->", s, flags=re.S)
 open(p, "w").write(s)
 print("DESIGN.md seed table: %d rows" % (tbl.count("\n") - 2))
